@@ -11,7 +11,7 @@ enum Tk {
     Elapsed, // [h] [mm] [s]
 }
 
-const NTOK: usize = 34;
+const NTOK: usize = 44;
 const TOKLEN: usize = 7;
 /// (bytes, length, kind). Quoted / escaped / bracketed entries deliberately contain date letters.
 const TOKS: [([u8; TOKLEN], usize, Tk); NTOK] = [
@@ -49,6 +49,16 @@ const TOKS: [([u8; TOKLEN], usize, Tk); NTOK] = [
     (*b"[h]    ", 3, Tk::Elapsed),
     (*b"[mm]   ", 4, Tk::Elapsed),
     (*b"[s]    ", 3, Tk::Elapsed),
+    (*b"[H]    ", 3, Tk::Elapsed),
+    (*b"[MM]   ", 4, Tk::Elapsed),
+    (*b"[S]    ", 3, Tk::Elapsed),
+    (*b"[hh]   ", 4, Tk::Elapsed),
+    (*b"[ss]   ", 4, Tk::Elapsed),
+    (*b"D      ", 1, Tk::Date),
+    (*b"MMM    ", 3, Tk::Date),
+    (*b"YY     ", 2, Tk::Date),
+    (*b"H      ", 1, Tk::Date),
+    (*b"S      ", 1, Tk::Date),
 ];
 
 /// N tokens chosen symbolically, concatenated; expected class from the token kinds:
